@@ -643,6 +643,12 @@ def string_fragment(report, uri_consts, shape_consts):
     assumptions = set()
     consts = dict(uri_consts)
     consts['STARTING_CHAR_FOR_SHAPE_NAME'] = shape_consts.get('STARTING_CHAR_FOR_SHAPE_NAME', '<missing>')
+    more_consts = {}
+    for rel_c in ("shexer/model/const_elem_types.py", "shexer/io/shex/formater/consts.py"):
+        try:
+            more_consts.update({k: v for k, v in module_consts(parse(rel_c)).items() if isinstance(v, str) and k not in consts})
+        except (OSError, SyntaxError):
+            pass
     jobs = [("shexer/utils/uri.py", None, 'remove_corners', 'remove_corners', {'a_uri': 'str', 'raise_error_if_no_corners': 'bool'}, 'str'),
             ("shexer/utils/uri.py", None, 'decide_literal_type', 'decide_literal_type', {'a_literal': 'str', 'base_namespace': 'optstr'}, 'str'),
             ("shexer/utils/uri.py", None, 'longest_common_prefix', 'longest_common_prefix', {'uri1': 'str', 'uri2': 'str'}, 'str'),
@@ -666,6 +672,13 @@ def string_fragment(report, uri_consts, shape_consts):
              {'target_uri': 'str', 'prefix_namespaces_dict': 'strdict', 'include_corners': 'bool'}, 'str'),
             ("shexer/utils/uri.py", None, 'prefixize_uri_if_possible', 'prefixize_uri_if_possible',
              {'target_uri': 'str', 'namespaces_prefix_dict': 'strdict', 'corners': 'bool'}, 'str'),
+            ("shexer/utils/shapes.py", None, 'prefixize_shape_name_if_possible', 'prefixize_shape_name_if_possible',
+             {'a_shape_name': 'str', 'namespaces_prefix_dict': 'strdict'}, 'str'),
+            ("shexer/io/shex/formater/statement_serializers/base_statement_serializer.py", 'BaseStatementSerializer', 'tune_token', 'serializer_tune_token',
+             {'a_token': 'str', 'namespaces_dict': 'strdict'}, 'str'),
+            ("shexer/io/shex/formater/statement_serializers/base_statement_serializer.py", 'BaseStatementSerializer', 'str_of_target_element',
+             'serializer_str_of_target_element',
+             {'self._instantiation_property_str': 'str', 'target_element': 'str', 'st_property': 'str', 'namespaces_dict': 'strdict'}, 'str'),
             # methods of one class: the attribute they read is a leading parameter, calls between them are monadic calls
             ("shexer/io/shape_map/label/shape_map_label_parser.py", 'ShapeMapLabelParser', '_is_a_prefixed_uri', 'label_is_a_prefixed_uri',
              {'self._namespaces_prefix_dict': 'strdict', 'raw_label': 'str'}, 'bool'),
@@ -687,15 +700,26 @@ def string_fragment(report, uri_consts, shape_consts):
                     local[node.targets[0].id] = ('charclass', node.value.args[0].value[1:-1])
             local.update(funcs.get(rel, {}))
             local.update(funcs.get((rel, cls), {}))
+            for node in tree.body:      # functions of other translated modules that this module imports by name
+                if isinstance(node, ast.ImportFrom):
+                    for al in node.names:
+                        if al.asname is None and al.name in funcs.get('*', {}):
+                            local.setdefault(al.name, funcs['*'][al.name])
+            local['__class__'] = cls
+            local.update(more_consts)
             ok_tr = XS.translate(out, report, assumptions, 'S.' + lname, fn, types, ret, local)
-            if ok_tr and cls is not None and ret in ('str', 'bool', 'int') and "(resolve :" not in out[-1]:
-                funcs.setdefault((rel, cls), {})['self.' + pyname] = ('func', lname, [(a.arg, types[a.arg]) for a in fn.args.args if a.arg != 'self'], ret, {})
-            if ok_tr and cls is None and ret in ('str', 'bool', 'int') \
-                    and "(resolve :" not in out[-1] and all(t in ('str', 'bool', 'int') for t in types.values()):
+            plain = lambda t: t in ('str', 'bool', 'int', 'strdict', 'optstr')
+            if ok_tr and cls is not None and ret in ('str', 'bool', 'int', 'optstr') and "(resolve :" not in out[-1]:
+                funcs.setdefault((rel, cls), {})['self.' + pyname] = ('func', lname, [(a.arg, types[a.arg]) for a in fn.args.args if a.arg != 'self'], ret, {},
+                                                                     [k for k in types if k.startswith('self.')])
+            if ok_tr and cls is None and ret in ('str', 'bool', 'int', 'optstr') \
+                    and "(resolve :" not in out[-1] and all(plain(t) for t in types.values()):
                 nd = len(fn.args.defaults)
                 dflt = {a.arg: d for a, d in zip(fn.args.args[len(fn.args.args) - nd:], fn.args.defaults)
                         if isinstance(d, ast.Constant) and isinstance(d.value, (bool, str))}
-                funcs.setdefault(rel, {})[pyname] = ('func', lname, [(a.arg, types[a.arg]) for a in fn.args.args], ret, dflt)
+                entry = ('func', lname, [(a.arg, types[a.arg]) for a in fn.args.args], ret, dflt, [])
+                funcs.setdefault(rel, {})[pyname] = entry
+                funcs.setdefault('*', {})[pyname] = entry
         except (Untranslatable, OSError, SyntaxError) as e:
             out.append("def %s_untranslatable : Unit := ()  -- %s\n" % (lname, str(e)[:100]))
             report['S.' + lname] = 'UNTRANSLATABLE: ' + str(e)[:200]
